@@ -3,11 +3,11 @@ CONSTANTS
   Class = "buf"
   Ideal = FALSE
   KSet = {"n"}
-  NW <- W21
-  NR <- W12
+  NW <- W20
+  NR <- W02
   NC <- W11
   WMax = 3
   CMax = 2
-INVARIANTS TypeOK Fifo NoSpuriousError NoLoss RestClose RestRead RestWrite RestNoLoss ClosedStopsReads ClosedStopsWrites
+INVARIANTS TypeOK Fifo NoSpuriousError NoLoss RestAll ClosedStopsReads ClosedStopsWrites
 PROPERTIES ClosedForGood
 CHECK_DEADLOCK FALSE
